@@ -8,7 +8,8 @@ sys.path.insert(0, '/verif')
 SCR = tempfile.mkdtemp(prefix='sc3_seedscan_')
 shutil.copytree('/repo/sc3', os.path.join(SCR, 'sc3'))
 out = {}
-for d in sorted(glob.glob('/verif/seeded/*')):
+for d in sorted(glob.glob('/verif/seeded/*/')):
+    d = d.rstrip('/')
     sid = os.path.basename(d)
     meta = json.load(open(os.path.join(d, 'meta.json')))
     prop = meta['property']
